@@ -11,6 +11,20 @@ from ._util import safeunicode, load_module
 from ._validation import MessageType, Field
 from ._errors import _error_extraction
 
+
+def _exception_name(typ):
+    """
+    @return: The FQPN of an exception class. Anything else (for example a
+        value an exception extractor supplied for the C{"exception"} field)
+        is rendered as text, so that serializing a traceback message cannot
+        itself fail and be reported by yet another traceback message.
+    """
+    try:
+        return "%s.%s" % (typ.__module__, typ.__name__)
+    except AttributeError:
+        return safeunicode(typ)
+
+
 TRACEBACK_MESSAGE = MessageType(
     "eliot:traceback",
     [
@@ -18,7 +32,7 @@ TRACEBACK_MESSAGE = MessageType(
         Field("traceback", safeunicode, "The traceback."),
         Field(
             EXCEPTION_FIELD,
-            lambda typ: "%s.%s" % (typ.__module__, typ.__name__),
+            _exception_name,
             "The exception type's FQPN.",
         ),
     ],
